@@ -145,6 +145,28 @@ def main():
         if prop in tags:
             kf = [k for k in findings if k['property'] == prop and k['obligation'] == f.oid and (not k['site'] or k['site'] == f.addr)]
             (known_hits if kf else violations).append(f)
+    # Modularity caveat: a function that did not exist when the contracts were written has no contract; a caller of
+    # it cannot be decided (its failing obligations are "undecided", exit 2, not a violation).
+    try:
+        base_fns = set(json.load(open(os.path.join(VERIF, 'contracts', 'baseline.json')))['functions'])
+    except Exception:
+        base_fns = None
+    undecided = []
+    if base_fns is not None:
+        new_fns = [f for f in res.fns if f.addr not in base_fns and '#canary' not in f.addr]
+        if new_fns:
+            names = set(f.addr.rsplit('::', 1)[-1] for f in new_fns)
+            keep = []
+            for v in violations:
+                owner = next((f for f in res.fns if f.addr == v.addr and hasattr(f, '_seg_range')), None)
+                body = ''.join(sg.text for sg in g.segs[owner._seg_range[0]:owner._seg_range[1]] if sg.origin == 'src') if owner else ''
+                if v.addr in [f.addr for f in new_fns] or any(re.search(r'\b%s\s*\(' % re.escape(n), body) for n in names):
+                    undecided.append(v)
+                else:
+                    keep.append(v)
+            violations = keep
+            for v in undecided:
+                run.tool_errors.append('undecided: %s fails in %s, which calls (or is) a function without contract (%s)' % (v.oid, v.addr, ', '.join(sorted(names))))
     # ownership conditions checked on the source text (@holds)
     synt = [x for x in getattr(res, 'syntactic', []) if prop in x['tags']]
     for x in synt:
